@@ -9,12 +9,10 @@ open MongoModel MongoModel.Spec.Proj
 
 mutual
   theorem apFields_incl : ∀ (fs : Fields) (cs : PSpec) (ps : List Path), Rep cs ps →
-      aggDescFields fs ps true = [] → apFields fs cs true = inclFields fs ps
-    | [], _, _, _, _ => by simp [apFields, inclFields]
-    | (k, .arr xs) :: rest, cs, ps, hr, hD => by
-      simp only [aggDescFields] at hD
-      have ih := apFields_incl rest cs ps hr (append_nil_right hD)
-      have hD1 := append_nil_left hD
+      apFields fs cs true = inclFields fs ps
+    | [], _, _, _ => by simp [apFields, inclFields]
+    | (k, .arr xs) :: rest, cs, ps, hr => by
+      have ih := apFields_incl rest cs ps hr
       cases ht : tget k cs with
       | none =>
         have hts := (hr.none_iff k).mp ht
@@ -27,13 +25,10 @@ mutual
           simp [apFields, inclFields, ht, hts, hne, ih]
         | node sub =>
           obtain ⟨h1, h2, h3⟩ := hr.node ht
-          simp only [aggDescVal] at hD1
-          have ihl := apList_incl xs sub _ h3 (desc_cond h1 h2 hD1)
+          have ihl := apList_incl xs sub _ h3
           simp [apFields, inclFields, inclVal, ht, h1, h2, ih, ihl]
-    | (k, .doc fs) :: rest, cs, ps, hr, hD => by
-      simp only [aggDescFields] at hD
-      have ih := apFields_incl rest cs ps hr (append_nil_right hD)
-      have hD1 := append_nil_left hD
+    | (k, .doc fs) :: rest, cs, ps, hr => by
+      have ih := apFields_incl rest cs ps hr
       cases ht : tget k cs with
       | none =>
         have hts := (hr.none_iff k).mp ht
@@ -46,12 +41,10 @@ mutual
           simp [apFields, inclFields, ht, hts, hne, ih]
         | node sub =>
           obtain ⟨h1, h2, h3⟩ := hr.node ht
-          simp only [aggDescVal] at hD1
-          have ihf := apFields_incl fs sub _ h3 (desc_cond h1 h2 hD1)
+          have ihf := apFields_incl fs sub _ h3
           simp [apFields, inclFields, inclVal, ht, h1, h2, ih, ihf]
-    | (k, .null) :: rest, cs, ps, hr, hD => by
-      simp only [aggDescFields] at hD
-      have ih := apFields_incl rest cs ps hr (append_nil_right hD)
+    | (k, .null) :: rest, cs, ps, hr => by
+      have ih := apFields_incl rest cs ps hr
       cases ht : tget k cs with
       | none =>
         have hts := (hr.none_iff k).mp ht
@@ -65,9 +58,8 @@ mutual
         | node sub =>
           obtain ⟨h1, h2, h3⟩ := hr.node ht
           simp [apFields, inclFields, inclVal, ht, h1, h2, ih]
-    | (k, .bool _) :: rest, cs, ps, hr, hD => by
-      simp only [aggDescFields] at hD
-      have ih := apFields_incl rest cs ps hr (append_nil_right hD)
+    | (k, .bool _) :: rest, cs, ps, hr => by
+      have ih := apFields_incl rest cs ps hr
       cases ht : tget k cs with
       | none =>
         have hts := (hr.none_iff k).mp ht
@@ -81,9 +73,8 @@ mutual
         | node sub =>
           obtain ⟨h1, h2, h3⟩ := hr.node ht
           simp [apFields, inclFields, inclVal, ht, h1, h2, ih]
-    | (k, .int _) :: rest, cs, ps, hr, hD => by
-      simp only [aggDescFields] at hD
-      have ih := apFields_incl rest cs ps hr (append_nil_right hD)
+    | (k, .int _) :: rest, cs, ps, hr => by
+      have ih := apFields_incl rest cs ps hr
       cases ht : tget k cs with
       | none =>
         have hts := (hr.none_iff k).mp ht
@@ -97,9 +88,8 @@ mutual
         | node sub =>
           obtain ⟨h1, h2, h3⟩ := hr.node ht
           simp [apFields, inclFields, inclVal, ht, h1, h2, ih]
-    | (k, .dbl _ _) :: rest, cs, ps, hr, hD => by
-      simp only [aggDescFields] at hD
-      have ih := apFields_incl rest cs ps hr (append_nil_right hD)
+    | (k, .dbl _ _) :: rest, cs, ps, hr => by
+      have ih := apFields_incl rest cs ps hr
       cases ht : tget k cs with
       | none =>
         have hts := (hr.none_iff k).mp ht
@@ -113,9 +103,8 @@ mutual
         | node sub =>
           obtain ⟨h1, h2, h3⟩ := hr.node ht
           simp [apFields, inclFields, inclVal, ht, h1, h2, ih]
-    | (k, .str _) :: rest, cs, ps, hr, hD => by
-      simp only [aggDescFields] at hD
-      have ih := apFields_incl rest cs ps hr (append_nil_right hD)
+    | (k, .str _) :: rest, cs, ps, hr => by
+      have ih := apFields_incl rest cs ps hr
       cases ht : tget k cs with
       | none =>
         have hts := (hr.none_iff k).mp ht
@@ -129,9 +118,8 @@ mutual
         | node sub =>
           obtain ⟨h1, h2, h3⟩ := hr.node ht
           simp [apFields, inclFields, inclVal, ht, h1, h2, ih]
-    | (k, .date _ _) :: rest, cs, ps, hr, hD => by
-      simp only [aggDescFields] at hD
-      have ih := apFields_incl rest cs ps hr (append_nil_right hD)
+    | (k, .date _ _) :: rest, cs, ps, hr => by
+      have ih := apFields_incl rest cs ps hr
       cases ht : tget k cs with
       | none =>
         have hts := (hr.none_iff k).mp ht
@@ -145,9 +133,8 @@ mutual
         | node sub =>
           obtain ⟨h1, h2, h3⟩ := hr.node ht
           simp [apFields, inclFields, inclVal, ht, h1, h2, ih]
-    | (k, .oid _) :: rest, cs, ps, hr, hD => by
-      simp only [aggDescFields] at hD
-      have ih := apFields_incl rest cs ps hr (append_nil_right hD)
+    | (k, .oid _) :: rest, cs, ps, hr => by
+      have ih := apFields_incl rest cs ps hr
       cases ht : tget k cs with
       | none =>
         have hts := (hr.none_iff k).mp ht
@@ -162,52 +149,45 @@ mutual
           obtain ⟨h1, h2, h3⟩ := hr.node ht
           simp [apFields, inclFields, inclVal, ht, h1, h2, ih]
   theorem apList_incl : ∀ (xs : List Val) (cs : PSpec) (ps : List Path), Rep cs ps →
-      aggDescList xs ps true = [] → apList xs cs true = inclList xs ps
-    | [], _, _, _, _ => by simp [apList, inclList]
-    | .doc fs :: xs, cs, ps, hr, hD => by
-      simp only [aggDescList] at hD
-      have ih := apList_incl xs cs ps hr (append_nil_right hD)
-      have ihf := apFields_incl fs cs ps hr (append_nil_left hD)
+      apList xs cs true = inclList xs ps
+    | [], _, _, _ => by simp [apList, inclList]
+    | .doc fs :: xs, cs, ps, hr => by
+      have ih := apList_incl xs cs ps hr
+      have ihf := apFields_incl fs cs ps hr
       simp [apList, apVal, inclList, inclVal, ih, ihf]
-    | .arr _ :: _, _, _, _, hD => by simp [aggDescList] at hD
-    | .null :: xs, cs, ps, hr, hD => by
-      simp only [aggDescList] at hD
-      have ih := apList_incl xs cs ps hr (append_nil_right hD)
+    | .arr zs :: xs, cs, ps, hr => by
+      have ih := apList_incl xs cs ps hr
+      have ihl := apList_incl zs cs ps hr
+      simp [apList, apVal, inclList, inclVal, ih, ihl]
+    | .null :: xs, cs, ps, hr => by
+      have ih := apList_incl xs cs ps hr
       simp [apList, apVal, inclList, inclVal, ih]
-    | .bool _ :: xs, cs, ps, hr, hD => by
-      simp only [aggDescList] at hD
-      have ih := apList_incl xs cs ps hr (append_nil_right hD)
+    | .bool _ :: xs, cs, ps, hr => by
+      have ih := apList_incl xs cs ps hr
       simp [apList, apVal, inclList, inclVal, ih]
-    | .int _ :: xs, cs, ps, hr, hD => by
-      simp only [aggDescList] at hD
-      have ih := apList_incl xs cs ps hr (append_nil_right hD)
+    | .int _ :: xs, cs, ps, hr => by
+      have ih := apList_incl xs cs ps hr
       simp [apList, apVal, inclList, inclVal, ih]
-    | .dbl _ _ :: xs, cs, ps, hr, hD => by
-      simp only [aggDescList] at hD
-      have ih := apList_incl xs cs ps hr (append_nil_right hD)
+    | .dbl _ _ :: xs, cs, ps, hr => by
+      have ih := apList_incl xs cs ps hr
       simp [apList, apVal, inclList, inclVal, ih]
-    | .str _ :: xs, cs, ps, hr, hD => by
-      simp only [aggDescList] at hD
-      have ih := apList_incl xs cs ps hr (append_nil_right hD)
+    | .str _ :: xs, cs, ps, hr => by
+      have ih := apList_incl xs cs ps hr
       simp [apList, apVal, inclList, inclVal, ih]
-    | .date _ _ :: xs, cs, ps, hr, hD => by
-      simp only [aggDescList] at hD
-      have ih := apList_incl xs cs ps hr (append_nil_right hD)
+    | .date _ _ :: xs, cs, ps, hr => by
+      have ih := apList_incl xs cs ps hr
       simp [apList, apVal, inclList, inclVal, ih]
-    | .oid _ :: xs, cs, ps, hr, hD => by
-      simp only [aggDescList] at hD
-      have ih := apList_incl xs cs ps hr (append_nil_right hD)
+    | .oid _ :: xs, cs, ps, hr => by
+      have ih := apList_incl xs cs ps hr
       simp [apList, apVal, inclList, inclVal, ih]
 end
 
 mutual
   theorem apFields_excl : ∀ (fs : Fields) (cs : PSpec) (ps : List Path), Rep cs ps →
-      aggDescFields fs ps false = [] → apFields fs cs false = exclFields fs ps
-    | [], _, _, _, _ => by simp [apFields, exclFields]
-    | (k, .arr xs) :: rest, cs, ps, hr, hD => by
-      simp only [aggDescFields] at hD
-      have ih := apFields_excl rest cs ps hr (append_nil_right hD)
-      have hD1 := append_nil_left hD
+      apFields fs cs false = exclFields fs ps
+    | [], _, _, _ => by simp [apFields, exclFields]
+    | (k, .arr xs) :: rest, cs, ps, hr => by
+      have ih := apFields_excl rest cs ps hr
       cases ht : tget k cs with
       | none =>
         have hts := (hr.none_iff k).mp ht
@@ -220,13 +200,10 @@ mutual
           simp [apFields, exclFields, ht, hts, hne, ih]
         | node sub =>
           obtain ⟨h1, h2, h3⟩ := hr.node ht
-          simp only [aggDescVal] at hD1
-          have ihl := apList_excl xs sub _ h3 (desc_cond h1 h2 hD1)
+          have ihl := apList_excl xs sub _ h3
           simp [apFields, exclFields, exclVal, ht, h1, h2, ih, ihl]
-    | (k, .doc fs) :: rest, cs, ps, hr, hD => by
-      simp only [aggDescFields] at hD
-      have ih := apFields_excl rest cs ps hr (append_nil_right hD)
-      have hD1 := append_nil_left hD
+    | (k, .doc fs) :: rest, cs, ps, hr => by
+      have ih := apFields_excl rest cs ps hr
       cases ht : tget k cs with
       | none =>
         have hts := (hr.none_iff k).mp ht
@@ -239,12 +216,10 @@ mutual
           simp [apFields, exclFields, ht, hts, hne, ih]
         | node sub =>
           obtain ⟨h1, h2, h3⟩ := hr.node ht
-          simp only [aggDescVal] at hD1
-          have ihf := apFields_excl fs sub _ h3 (desc_cond h1 h2 hD1)
+          have ihf := apFields_excl fs sub _ h3
           simp [apFields, exclFields, exclVal, ht, h1, h2, ih, ihf]
-    | (k, .null) :: rest, cs, ps, hr, hD => by
-      simp only [aggDescFields] at hD
-      have ih := apFields_excl rest cs ps hr (append_nil_right hD)
+    | (k, .null) :: rest, cs, ps, hr => by
+      have ih := apFields_excl rest cs ps hr
       cases ht : tget k cs with
       | none =>
         have hts := (hr.none_iff k).mp ht
@@ -258,9 +233,8 @@ mutual
         | node sub =>
           obtain ⟨h1, h2, h3⟩ := hr.node ht
           simp [apFields, exclFields, exclVal, ht, h1, h2, ih]
-    | (k, .bool _) :: rest, cs, ps, hr, hD => by
-      simp only [aggDescFields] at hD
-      have ih := apFields_excl rest cs ps hr (append_nil_right hD)
+    | (k, .bool _) :: rest, cs, ps, hr => by
+      have ih := apFields_excl rest cs ps hr
       cases ht : tget k cs with
       | none =>
         have hts := (hr.none_iff k).mp ht
@@ -274,9 +248,8 @@ mutual
         | node sub =>
           obtain ⟨h1, h2, h3⟩ := hr.node ht
           simp [apFields, exclFields, exclVal, ht, h1, h2, ih]
-    | (k, .int _) :: rest, cs, ps, hr, hD => by
-      simp only [aggDescFields] at hD
-      have ih := apFields_excl rest cs ps hr (append_nil_right hD)
+    | (k, .int _) :: rest, cs, ps, hr => by
+      have ih := apFields_excl rest cs ps hr
       cases ht : tget k cs with
       | none =>
         have hts := (hr.none_iff k).mp ht
@@ -290,9 +263,8 @@ mutual
         | node sub =>
           obtain ⟨h1, h2, h3⟩ := hr.node ht
           simp [apFields, exclFields, exclVal, ht, h1, h2, ih]
-    | (k, .dbl _ _) :: rest, cs, ps, hr, hD => by
-      simp only [aggDescFields] at hD
-      have ih := apFields_excl rest cs ps hr (append_nil_right hD)
+    | (k, .dbl _ _) :: rest, cs, ps, hr => by
+      have ih := apFields_excl rest cs ps hr
       cases ht : tget k cs with
       | none =>
         have hts := (hr.none_iff k).mp ht
@@ -306,9 +278,8 @@ mutual
         | node sub =>
           obtain ⟨h1, h2, h3⟩ := hr.node ht
           simp [apFields, exclFields, exclVal, ht, h1, h2, ih]
-    | (k, .str _) :: rest, cs, ps, hr, hD => by
-      simp only [aggDescFields] at hD
-      have ih := apFields_excl rest cs ps hr (append_nil_right hD)
+    | (k, .str _) :: rest, cs, ps, hr => by
+      have ih := apFields_excl rest cs ps hr
       cases ht : tget k cs with
       | none =>
         have hts := (hr.none_iff k).mp ht
@@ -322,9 +293,8 @@ mutual
         | node sub =>
           obtain ⟨h1, h2, h3⟩ := hr.node ht
           simp [apFields, exclFields, exclVal, ht, h1, h2, ih]
-    | (k, .date _ _) :: rest, cs, ps, hr, hD => by
-      simp only [aggDescFields] at hD
-      have ih := apFields_excl rest cs ps hr (append_nil_right hD)
+    | (k, .date _ _) :: rest, cs, ps, hr => by
+      have ih := apFields_excl rest cs ps hr
       cases ht : tget k cs with
       | none =>
         have hts := (hr.none_iff k).mp ht
@@ -338,9 +308,8 @@ mutual
         | node sub =>
           obtain ⟨h1, h2, h3⟩ := hr.node ht
           simp [apFields, exclFields, exclVal, ht, h1, h2, ih]
-    | (k, .oid _) :: rest, cs, ps, hr, hD => by
-      simp only [aggDescFields] at hD
-      have ih := apFields_excl rest cs ps hr (append_nil_right hD)
+    | (k, .oid _) :: rest, cs, ps, hr => by
+      have ih := apFields_excl rest cs ps hr
       cases ht : tget k cs with
       | none =>
         have hts := (hr.none_iff k).mp ht
@@ -355,21 +324,37 @@ mutual
           obtain ⟨h1, h2, h3⟩ := hr.node ht
           simp [apFields, exclFields, exclVal, ht, h1, h2, ih]
   theorem apList_excl : ∀ (xs : List Val) (cs : PSpec) (ps : List Path), Rep cs ps →
-      aggDescList xs ps false = [] → apList xs cs false = exclList xs ps
-    | [], _, _, _, _ => by simp [apList, exclList]
-    | .doc fs :: xs, cs, ps, hr, hD => by
-      simp only [aggDescList] at hD
-      have ih := apList_excl xs cs ps hr (append_nil_right hD)
-      have ihf := apFields_excl fs cs ps hr (append_nil_left hD)
+      apList xs cs false = exclList xs ps
+    | [], _, _, _ => by simp [apList, exclList]
+    | .doc fs :: xs, cs, ps, hr => by
+      have ih := apList_excl xs cs ps hr
+      have ihf := apFields_excl fs cs ps hr
       simp [apList, apVal, exclList, exclVal, ih, ihf]
-    | .arr _ :: _, _, _, _, hD => by simp [aggDescList] at hD
-    | .null :: _, _, _, _, hD => by simp [aggDescList] at hD
-    | .bool _ :: _, _, _, _, hD => by simp [aggDescList] at hD
-    | .int _ :: _, _, _, _, hD => by simp [aggDescList] at hD
-    | .dbl _ _ :: _, _, _, _, hD => by simp [aggDescList] at hD
-    | .str _ :: _, _, _, _, hD => by simp [aggDescList] at hD
-    | .date _ _ :: _, _, _, _, hD => by simp [aggDescList] at hD
-    | .oid _ :: _, _, _, _, hD => by simp [aggDescList] at hD
+    | .arr zs :: xs, cs, ps, hr => by
+      have ih := apList_excl xs cs ps hr
+      have ihl := apList_excl zs cs ps hr
+      simp [apList, apVal, exclList, exclVal, ih, ihl]
+    | .null :: xs, cs, ps, hr => by
+      have ih := apList_excl xs cs ps hr
+      simp [apList, apVal, exclList, exclVal, ih]
+    | .bool _ :: xs, cs, ps, hr => by
+      have ih := apList_excl xs cs ps hr
+      simp [apList, apVal, exclList, exclVal, ih]
+    | .int _ :: xs, cs, ps, hr => by
+      have ih := apList_excl xs cs ps hr
+      simp [apList, apVal, exclList, exclVal, ih]
+    | .dbl _ _ :: xs, cs, ps, hr => by
+      have ih := apList_excl xs cs ps hr
+      simp [apList, apVal, exclList, exclVal, ih]
+    | .str _ :: xs, cs, ps, hr => by
+      have ih := apList_excl xs cs ps hr
+      simp [apList, apVal, exclList, exclVal, ih]
+    | .date _ _ :: xs, cs, ps, hr => by
+      have ih := apList_excl xs cs ps hr
+      simp [apList, apVal, exclList, exclVal, ih]
+    | .oid _ :: xs, cs, ps, hr => by
+      have ih := apList_excl xs cs ps hr
+      simp [apList, apVal, exclList, exclVal, ih]
 end
 
 
@@ -489,20 +474,6 @@ theorem excl_congr {A B : List Path} (h : ∀ k, tailsOf k A = tailsOf k B) :
   | [] => by simp [exclFields]
   | (k, v) :: r => by simp only [exclFields, h k, excl_congr h r]
 
-theorem aggDesc_congr {A B : List Path} (incl : Bool) (h : ∀ k, tailsOf k A = tailsOf k B) :
-    ∀ fs : Fields, aggDescFields fs A incl = aggDescFields fs B incl
-  | [] => by simp [aggDescFields]
-  | (k, v) :: r => by simp only [aggDescFields, h k, aggDesc_congr incl h r]
-
-theorem aggDesc_id_cons {ps : List Path} (hid : tailsOf "_id" ps = []) (incl : Bool) :
-    ∀ fs : Fields, aggDescFields fs (["_id"] :: ps) incl = aggDescFields fs ps incl
-  | [] => by simp [aggDescFields]
-  | (k, v) :: r => by
-    by_cases e : "_id" = k
-    · subst e
-      simp [aggDescFields, tailsOf_id_cons, hid, aggDesc_id_cons hid incl r]
-    · simp [aggDescFields, tailsOf_id_cons, e, aggDesc_id_cons hid incl r]
-
 /-! ### the stage -/
 
 theorem dget_of_mem_nodup {k : String} {v : Val} : ∀ {l : Fields}, (dkeys l).Nodup → (k, v) ∈ l →
@@ -558,7 +529,7 @@ theorem splitDots_id : splitDots "_id" = ["_id"] := by decide
 
 /-- building the tree from the filter list and projecting one document -/
 theorem agg_run (fs : Fields) (fl : List String) (b : Bool) (ps : List Path)
-    (hfl : fl.map splitDots = ps) (hnc : NoColl ps) (hD : aggDescFields fs ps b = []) :
+    (hfl : fl.map splitDots = ps) (hnc : NoColl ps) :
     (do let cs ← combineSpec true (fl.map (fun k => (splitDots k, Val.int 1)))
         [Val.doc fs].mapM (aggProjectDoc cs b)) =
       .ok [.doc (if b = true then inclFields fs ps else exclFields fs ps)] := by
@@ -575,8 +546,8 @@ theorem agg_run (fs : Fields) (fl : List String) (b : Bool) (ps : List Path)
   simp only [combineSpec, hcs, bind, Except.bind, List.mapM_cons, List.mapM_nil, aggProjectDoc,
     pure, Except.pure]
   cases b
-  · rw [apFields_excl fs cs ps hrep hD]; rfl
-  · rw [apFields_incl fs cs ps hrep hD]; rfl
+  · rw [apFields_excl fs cs ps hrep]; rfl
+  · rw [apFields_incl fs cs ps hrep]; rfl
 
 /-- **the `$project` stage on its domain is the rule** -/
 theorem agg_exact (p d : Val) (h : aggReasons p d = []) :
@@ -597,8 +568,7 @@ theorem agg_exact (p d : Val) (h : aggReasons p d = []) :
       split at h
       · cases h
       · next n hn =>
-        simp only [List.append_eq_nil_iff, ite_single_nil] at h
-        obtain ⟨hidx, hD⟩ := h
+        have hidx := ite_single_nil.mp h
         have ok := specOk_of_reasons hs
         obtain ⟨idf, hreads, hkeep, hcase⟩ := normDict_some hn
         refine ⟨.doc (projectNorm n fs), by simp [project, hn], ?_⟩
@@ -693,7 +663,6 @@ theorem agg_exact (p d : Val) (h : aggReasons p d = []) :
           · rw [hp, hpl]; rfl
           · exact hp
         have hnc := noCollision_noColl _ ok.noColl
-        rw [hpaths] at hD
         have hfilter : aggFilterList (f :: r) = .ok (m,
             if (n.incl == (idf != some false)) = true
             then dkeys ((f :: r).filter (fun kv => kv.1 != "_id")) ++ ["_id"]
@@ -713,9 +682,6 @@ theorem agg_exact (p d : Val) (h : aggReasons p d = []) :
               ++ [["_id"]])
             (by simp [dkeys, List.map_map, Function.comp_def, splitDots_id])
             (noColl_snoc_id hnc hid hpathsne)
-            (by
-              rw [aggDesc_congr n.incl (tailsOf_snoc_id hid), aggDesc_id_cons hid]
-              exact hD)
           simp only [bind, Except.bind] at this
           rw [this]
           simp only [projectNorm, hpaths, hkeep']
@@ -735,7 +701,7 @@ theorem agg_exact (p d : Val) (h : aggReasons p d = []) :
             cases hb : n.incl <;> cases hk' : (idf != some false) <;> simp_all
           have := agg_run fs (dkeys ((f :: r).filter (fun kv => kv.1 != "_id"))) n.incl
             (((f :: r).filter (fun kv => kv.1 != "_id")).map (fun kv => splitDots kv.1))
-            (by simp [dkeys, List.map_map, Function.comp_def]) hnc hD
+            (by simp [dkeys, List.map_map, Function.comp_def]) hnc
           simp only [bind, Except.bind] at this
           rw [this]
           simp only [projectNorm, hpaths, hkeep']
